@@ -32,7 +32,7 @@ import (
 
 func init() {
 	core.Register(&core.Check{ID: "C16",
-		Technique: "exhaustive enumeration of (exported constructor x argument shape x depth 0..3 x 2 call paths) through generated non-inlinable call chains on the real code",
+		Technique: "exhaustive enumeration of (exported constructor x argument shape x depth 0..3 x 2 call paths x stack depth below/above the 32-PC buffer) through generated non-inlinable call chains on the real code",
 		Shards:    func(string) int { return 1 },
 		Run:       runC16})
 }
@@ -152,20 +152,66 @@ func enter(path int, name string, shape, depth int) (string, error) {
 	return top.G(name, shape, depth)
 }
 
+// nested reaches enter through n extra non-inlinable recursive frames, so
+// that the captured stack is
+//
+//	library function <- p0 <- p1 <- p2 <- p3 <- enter <- nested x (n+1) <- check
+//
+// and can be made deeper than the library's 32-entry PC buffer.
+//
+//go:noinline
+func nested(n int, path int, name string, shape, depth int) (string, error) {
+	if n > 0 {
+		return nested(n-1, path, name, shape, depth)
+	}
+	var pcs [512]uintptr
+	framesAboveChain = runtime.Callers(1, pcs[:])
+	return enter(path, name, shape, depth)
+}
+
+// framesAboveChain is the number of frames from the innermost nested frame
+// up to goexit in the last case run (evidence only).
+var framesAboveChain int
+
+// nests are the extra stack depths. The library keeps 32 PCs per stack:
+// quick takes one value on each side, thorough sweeps every value up to 40
+// (which contains the boundary whatever the depth of the harness itself, and
+// 31, 32, 33) plus 70 (more than two buffers). 0 comes first (the un-nested
+// twin decides the key), then the quick values, so that a defect seen by both
+// tiers gets the same key in both.
+func nests(thorough bool) []int {
+	ns := []int{0, 40}
+	if !thorough {
+		return ns
+	}
+	for n := 1; n < 40; n++ {
+		ns = append(ns, n)
+	}
+	return append(ns, 70)
+}
+
 type replay struct {
 	Func  string `json:"func"`
 	Shape int    `json:"shape"`
 	Depth int    `json:"depth"`
 	Path  int    `json:"path"`
+	Nest  int    `json:"nest"`
 }
 
 // vkey is clause|pkg.Func, with |shape=<n> appended for the non-default
-// argument shapes only (keys of shape 0 are the historical ones).
-func vkey(clause string, fc fcase, shape int) string {
-	if shape == 0 {
-		return clause + "|" + fc.name
+// argument shapes only (keys of shape 0 are the historical ones) and
+// |nest=<n> only for a nested case whose un-nested twin passes (nestTag 0
+// otherwise); n is the first nest value, in enumeration order, at which that
+// (function, shape) fails: later nest values add to its count.
+func vkey(clause string, fc fcase, shape, nestTag int) string {
+	k := clause + "|" + fc.name
+	if shape != 0 {
+		k += fmt.Sprintf("|shape=%d", shape)
 	}
-	return fmt.Sprintf("%s|%s|shape=%d", clause, fc.name, shape)
+	if nestTag != 0 {
+		k += fmt.Sprintf("|nest=%d", nestTag)
+	}
+	return k
 }
 
 func hasShape(fc fcase, shape int) bool {
@@ -197,11 +243,12 @@ func whoIs(ls [maxDepth + 1]link, fn, dir string) string {
 	return "not a link of the chain"
 }
 
-// runCase executes one (function, shape, depth, path) and applies the
-// oracle. It returns the clauses evaluated.
-func runCase(r *core.Result, ls [maxDepth + 1]link, fc fcase, shape, depth, path int) (evals int64, ok bool) {
-	rp := replay{fc.name, shape, depth, path}
-	where := fmt.Sprintf("%s (argument shape %d %q) at depth %d via call path %d", fc.name, shape, p0.ShapeNames[shape], depth, path)
+// runCase executes one (function, shape, depth, path, nest) and applies the
+// oracle. nestTag is what the violation keys carry (see vkey). It returns the
+// clauses evaluated.
+func runCase(r *core.Result, ls [maxDepth + 1]link, fc fcase, shape, depth, path, nest, nestTag int) (evals int64, ok bool) {
+	rp := replay{fc.name, shape, depth, path, nest}
+	where := fmt.Sprintf("%s (argument shape %d %q) at depth %d via call path %d, chain entered below %d extra frames", fc.name, shape, p0.ShapeNames[shape], depth, path, nest)
 	want := ls[depth]
 	wantFn := want.fn[path-1]
 
@@ -210,14 +257,14 @@ func runCase(r *core.Result, ls [maxDepth + 1]link, fc fcase, shape, depth, path
 	var pnc interface{}
 	func() {
 		defer func() { pnc = recover() }()
-		dom, err = enter(path, fc.name, shape, depth)
+		dom, err = nested(nest, path, fc.name, shape, depth)
 	}()
 	if pnc != nil {
 		clause := "stack-frame"
 		if fc.kind == "domain" {
 			clause = "domain"
 		}
-		r.Violate(vkey(clause, fc, shape), fmt.Sprintf("%s panics: %v", where, pnc), rp)
+		r.Violate(vkey(clause, fc, shape, nestTag), fmt.Sprintf("%s panics: %v", where, pnc), rp)
 		return 1, false
 	}
 	if dom == p0.Unknown || dom == p0.NoShape {
@@ -235,7 +282,7 @@ func runCase(r *core.Result, ls [maxDepth + 1]link, fc fcase, shape, depth, path
 		if dom != wantDom {
 			ok = false
 			got := strings.TrimPrefix(dom, "error domain: pkg ")
-			r.Violate(vkey("domain", fc, shape), fmt.Sprintf("%s: domain is %q (%s), want %q (the package of link %d, function %s)",
+			r.Violate(vkey("domain", fc, shape, nestTag), fmt.Sprintf("%s: domain is %q (%s), want %q (the package of link %d, function %s)",
 				where, dom, whoIs(ls, "", got), wantDom, depth, wantFn), rp)
 		}
 		return evals, ok
@@ -254,7 +301,7 @@ func runCase(r *core.Result, ls [maxDepth + 1]link, fc fcase, shape, depth, path
 	}
 	evals++
 	if len(stacks) == 0 {
-		r.Violate(vkey("stack-frame", fc, shape), fmt.Sprintf("%s: no layer of the result (%T) carries a stack trace", where, err), rp)
+		r.Violate(vkey("stack-frame", fc, shape, nestTag), fmt.Sprintf("%s: no layer of the result (%T) carries a stack trace", where, err), rp)
 		return evals, false
 	}
 	if len(stacks) != 1 {
@@ -267,7 +314,7 @@ func runCase(r *core.Result, ls [maxDepth + 1]link, fc fcase, shape, depth, path
 	frameOK := gotFn == wantFn && gotDir == want.dir && gotFile == want.file
 	if !frameOK {
 		ok = false
-		r.Violate(vkey("stack-frame", fc, shape), fmt.Sprintf("%s: first recorded frame is %s (%s:%d; %s), want %s in %s (link %d)",
+		r.Violate(vkey("stack-frame", fc, shape, nestTag), fmt.Sprintf("%s: first recorded frame is %s (%s:%d; %s), want %s in %s (link %d)",
 			where, gotFn, fr.AbsPath, fr.Lineno, whoIs(ls, gotFn, ""), wantFn, filepath.Join(want.dir, want.file), depth), rp)
 	}
 
@@ -282,10 +329,10 @@ func runCase(r *core.Result, ls [maxDepth + 1]link, fc fcase, shape, depth, path
 		switch {
 		case !found:
 			ok = false
-			r.Violate(vkey("oneline", fc, shape), fmt.Sprintf("%s: GetOneLineSource finds nothing although a stack is recorded", where), rp)
+			r.Violate(vkey("oneline", fc, shape, nestTag), fmt.Sprintf("%s: GetOneLineSource finds nothing although a stack is recorded", where), rp)
 		case file != want.file || fn != lastDot(wantFn) || line != ifr.Lineno || line <= 0:
 			ok = false
-			r.Violate(vkey("oneline", fc, shape), fmt.Sprintf("%s: GetOneLineSource = (%s, %d, %s), want (%s, %d, %s)",
+			r.Violate(vkey("oneline", fc, shape, nestTag), fmt.Sprintf("%s: GetOneLineSource = (%s, %d, %s), want (%s, %d, %s)",
 				where, file, line, fn, want.file, ifr.Lineno, lastDot(wantFn)), rp)
 		}
 	}
@@ -296,17 +343,19 @@ func runC16(c *core.Ctx, r *core.Result) {
 	if c.Shard != 0 {
 		return
 	}
+	ns := nests(c.Thorough())
 	nfs := 0
 	for _, fc := range table {
 		nfs += len(fc.shapes)
 	}
-	r.Bounds = fmt.Sprintf("%d exported functions (root, errutil, withstack, domains, grpc/status) x every argument shape that selects a different library branch (%d (function, shape) pairs; shapes %s) x depth 0..%d (depth 0 only for functions without a depth parameter) x %d call paths (plain functions; methods through interface values), each through a 4-package non-inlinable chain", len(table), nfs, strings.Join(p0.ShapeNames, ", "), maxDepth, nPaths)
-	r.Rule = "state = (function, argument shape, depth, call path); transition = one call-chain hop (4 per state); non-trivial = depth>=1 or call path 2 or shape != plain; outcome class = function family"
+	r.Bounds = fmt.Sprintf("%d exported functions (root, errutil, withstack, domains, grpc/status) x every argument shape that selects a different library branch (%d (function, shape) pairs; shapes %s) x depth 0..%d (depth 0 only for functions without a depth parameter) x %d call paths (plain functions; methods through interface values) x chain entered below N extra recursive frames, N in %v (the library keeps 32 PCs per stack), each through a 4-package non-inlinable chain", len(table), nfs, strings.Join(p0.ShapeNames, ", "), maxDepth, nPaths, ns)
+	r.Rule = "state = (function, argument shape, depth, call path, nest); transition = one call-chain hop (4 + nest per state); non-trivial = depth>=1 or call path 2 or shape != plain or nest != 0; outcome class = function family"
 	r.Assumptions = []string{
 		"//go:noinline keeps every link of the chain a real frame; the library functions themselves may be inlined (runtime.Callers/Caller expand inlined frames)",
 		"causes handed to Wrap*/WithStack*/HandleAs*/Join* and the %w argument carry no stack and no domain, so each result has exactly one stack on its cause chain; the error-valued %v argument (shape error-arg) does have a stack of its own, which must not be picked up",
 		"argument shapes were chosen by reading the branches of errutil/utilities.go, errutil/assertions.go, join, withstack, domains and grpc/status; a branch keyed on something else is not covered",
 		"errutil.As captures a stack only to build the panic object for API misuse; it and the functions reaching a capture only through it (errors.As, oserror.Is*) are not constructors and are excluded (counted in functions_capturing_only_via_As_panic)",
+		"only the innermost recorded frame is checked: how many outer frames a deep stack keeps (the library truncates at 32) is not part of C16",
 		"expected directories, files and function names are asked from the runtime (runtime.Caller(0), FuncForPC), not hard-coded",
 	}
 	ls := links()
@@ -329,10 +378,17 @@ func runC16(c *core.Ctx, r *core.Result) {
 			return
 		}
 		for _, fc := range table {
-			if fc.name == rp.Func && hasShape(fc, rp.Shape) && rp.Depth >= 0 && rp.Depth <= maxDepth && (rp.Path == 1 || rp.Path == 2) {
-				ev, _ := runCase(r, ls, fc, rp.Shape, rp.Depth, rp.Path)
+			if fc.name == rp.Func && hasShape(fc, rp.Shape) && rp.Depth >= 0 && rp.Depth <= maxDepth && (rp.Path == 1 || rp.Path == 2) && rp.Nest >= 0 && rp.Nest <= 1000 {
+				tag := 0
+				if rp.Nest != 0 {
+					// the key says nest only when the un-nested twin passes
+					if _, ok0 := runCase(core.NewResult(), ls, fc, rp.Shape, rp.Depth, rp.Path, 0, 0); ok0 {
+						tag = rp.Nest
+					}
+				}
+				ev, _ := runCase(r, ls, fc, rp.Shape, rp.Depth, rp.Path, rp.Nest, tag)
 				r.States++
-				r.Transitions += hopsPerCase
+				r.Transitions += hopsPerCase + int64(rp.Nest)
 				r.Evaluations += ev
 				r.Sample(rp)
 				return
@@ -343,6 +399,7 @@ func runC16(c *core.Ctx, r *core.Result) {
 	}
 
 	covered := map[string]bool{}
+	firstNest := map[[2]interface{}]int{} // (function, shape) -> nest value its nested failures are keyed with
 	for i, fc := range table {
 		covered[fc.name] = true
 		top := 0
@@ -362,18 +419,41 @@ func runC16(c *core.Ctx, r *core.Result) {
 			r.Count("function_shape_pairs", 1)
 			for d := 0; d <= top; d++ {
 				for path := 1; path <= nPaths; path++ {
-					ev, ok := runCase(r, ls, fc, shape, d, path)
-					r.States++
-					r.Transitions += hopsPerCase
-					r.Evaluations += ev
-					if ok && (d >= 1 || path == 2 || shape != 0) {
-						r.Nontrivial++
-					}
-					r.Outcome(fc.family)
-					r.Count("cases_"+fc.kind, 1)
-					r.Count(fmt.Sprintf("cases_shape_%d_%s", shape, p0.ShapeNames[shape]), 1)
-					if (i%9 == 0 && d == top && path == 2 && shape == fc.shapes[len(fc.shapes)-1]) || (fc.name == "errors.PackageDomain" && path == 1) {
-						r.Sample(map[string]interface{}{"func": fc.name, "shape": p0.ShapeNames[shape], "depth": d, "path": path, "expect_function": ls[d].fn[path-1], "expect_dir": ls[d].dir, "ok": ok})
+					ok0 := false
+					for _, nest := range ns { // ns[0] == 0
+						tag := 0
+						if nest != 0 && ok0 {
+							tag = nest
+							if t, seen := firstNest[[2]interface{}{fc.name, shape}]; seen {
+								tag = t
+							}
+						}
+						ev, ok := runCase(r, ls, fc, shape, d, path, nest, tag)
+						if nest == 0 {
+							ok0 = ok
+						}
+						if !ok && tag != 0 {
+							firstNest[[2]interface{}{fc.name, shape}] = tag
+						}
+						r.States++
+						r.Transitions += hopsPerCase + int64(nest)
+						r.Evaluations += ev
+						if ok && (d >= 1 || path == 2 || shape != 0 || nest != 0) {
+							r.Nontrivial++
+						}
+						r.Outcome(fc.family)
+						r.Count("cases_"+fc.kind, 1)
+						r.Count(fmt.Sprintf("cases_shape_%d_%s", shape, p0.ShapeNames[shape]), 1)
+						r.Count(fmt.Sprintf("cases_nest_%02d", nest), 1)
+						// frames from the attributed caller (link d) up to goexit
+						if above := int64(framesAboveChain + 1 + maxDepth - d + 1); above > 32 {
+							r.Count("cases_with_more_than_32_frames_above_the_attributed_caller", 1)
+						} else {
+							r.Count("cases_with_at_most_32_frames_above_the_attributed_caller", 1)
+						}
+						if (i%9 == 0 && d == top && path == 2 && shape == fc.shapes[len(fc.shapes)-1] && nest == ns[len(ns)-1]) || (fc.name == "errors.PackageDomain" && path == 1 && nest == 0) {
+							r.Sample(map[string]interface{}{"func": fc.name, "shape": p0.ShapeNames[shape], "depth": d, "path": path, "nest": nest, "frames_from_attributed_caller_to_goexit": framesAboveChain + 1 + maxDepth - d + 1, "expect_function": ls[d].fn[path-1], "expect_dir": ls[d].dir, "ok": ok})
+						}
 					}
 				}
 			}
